@@ -6,6 +6,7 @@ from specs import dalvik_formats as F
 
 ANA, DEX = S.ANA, S.DEX
 META = {
+    "technique": 'contract-based deductive verification: symbolic execution of the real functions against sidecar contracts (z3/cvc5) for the proved units; bounded contract evaluation (enumerated scope / independent writer) for the rest',
     "level": "other",
     "partial": True,
     "level_text": "Proof (leaf contracts, all inputs): determineNext for a symbolic opcode/offset/length and symbolic switch targets "
